@@ -15,9 +15,10 @@ package checks
 // control frame in order; one masked pong per ping on the outbound side.
 
 import (
-	"strings"
 	"errors"
 	"fmt"
+	"strings"
+	"time"
 
 	"github.com/talostrading/sonic/codec/websocket"
 	"verifmc/engine"
@@ -236,7 +237,22 @@ func readAll(x *engine.X, ws *websocket.Stream, vs *vstream.Stream, api int, def
 	ws.SetControlCallback(func(mt websocket.MessageType, payload []byte) {
 		d.ctls = append(d.ctls, wsref.Frame{Fin: true, Op: byte(mt), Payload: append([]byte{}, payload...)})
 	})
-	buf := make([]byte, bufSize)
+	// the caller's message buffer is a window into a larger array (len < cap), guarded by canaries on both sides
+	arena := make([]byte, bufSize+32)
+	for i := range arena {
+		arena[i] = 0xC7
+	}
+	buf := arena[16 : 16+bufSize]
+	guard := func(n int) {
+		if n > len(buf) {
+			x.Fail("ws.read/count-exceeds-buffer", "%s reported n=%d with a %d-byte buffer", apiNames[api], n, len(buf))
+		}
+		for i, c := range arena {
+			if (i < 16 || i >= 16+bufSize) && c != 0xC7 {
+				x.Fail("ws.read/wrote-outside-buffer", "%s changed byte %d of the array around its %d-byte buffer", apiNames[api], i-16, bufSize)
+			}
+		}
+	}
 	copyFrame := func(f websocket.Frame) wsref.Frame {
 		return wsref.Frame{Fin: f.IsFIN(), Op: byte(f.Opcode()), Payload: append([]byte{}, f.Payload()...)}
 	}
@@ -253,6 +269,7 @@ func readAll(x *engine.X, ws *websocket.Stream, vs *vstream.Stream, api int, def
 			d.frames = append(d.frames, copyFrame(f))
 		case 2:
 			mt, n, err := ws.NextMessage(buf)
+			guard(n)
 			if err != nil {
 				if !errors.Is(err, vstream.ErrStarved) {
 					d.err = err
@@ -273,6 +290,7 @@ func readAll(x *engine.X, ws *websocket.Stream, vs *vstream.Stream, api int, def
 				})
 			} else {
 				ws.AsyncNextMessage(buf, func(err error, n int, mt websocket.MessageType) {
+					guard(n)
 					calls++
 					cerr = err
 					if err == nil {
@@ -404,7 +422,7 @@ func c06DFS(tier string) *engine.DFS {
 	if tier == "thorough" {
 		dev = 3
 	}
-	return &engine.DFS{Name: "messages@" + tier, Body: c06Body(tier), Threads: 16, ShardDepth: 2, MaxDeviations: dev, MaxPoints: 600}
+	return &engine.DFS{Name: "messages@" + tier, Body: c06Body(tier), Procs: 16, WorkerProcs: 1, ShardDepth: 3, MaxDeviations: dev, MaxPoints: 600, HangTimeout: 60 * time.Second}
 }
 
 func C06(tier string) *engine.Report {
